@@ -319,9 +319,15 @@ func (bs *baseServer) Handshake(transportName string, ctx *types.HttpContext) (*
 
 	transport.On("headers", func(args ...any) {
 		headers, req := args[0].(*utils.ParameterBag), args[1].(*types.HttpContext)
-		if !ctx.Query().Has("sid") {
+		// only the handshake response (the request that carries no sid) is the
+		// initial one; `ctx` is the handshake request itself and never has a sid
+		if !req.Query().Has("sid") {
 			if cookie := bs.opts.Cookie(); cookie != nil {
-				headers.Set("Set-Cookie", cookie.String())
+				// the cookie carries this session's id; the configured cookie is
+				// shared by all sessions, so set the value on a copy
+				sessionCookie := *cookie
+				sessionCookie.Value = id
+				headers.Set("Set-Cookie", sessionCookie.String())
 			}
 			bs.Emit("initial_headers", headers, req)
 		}
